@@ -923,7 +923,10 @@ Definition client_ad_cached (q : creq) (stored_ad : bool) : bool := client_ad q 
    points at (compared without regard to letter case since a4faf69: names are numbers here, the drivers fold) or
    terminal data.  ResponseWriter.WriteMsg files what the resolver answered under the partition of the REQUEST's CD bit,
    AD bit as the resolver set it. *)
-Record centry := mk_centry { ce_ad : bool; ce_next : option N }.
+(* what an entry without an alias link ends the chase with: data of the type asked, a NODATA denial (NOERROR, an SOA in
+   the authority section) or an NXDOMAIN denial — [ce_term] is read only where [ce_next] is [None] *)
+Inductive cterm := TData | TNoData | TNxDomain.
+Record centry := mk_centry { ce_ad : bool; ce_next : option N; ce_term : cterm }.
 Definition cstore := list (N * centry).
 Fixpoint cs_find (st : cstore) (n : N) : option centry :=
   match st with
@@ -964,6 +967,22 @@ Fixpoint is_prefix (a b : list N) : bool :=
   | x :: a', y :: b' => (x =? y) && is_prefix a' b'
   | _ :: _, [] => false
   end.
+(* Cache.additionalAnswer over the store, a chain that ends: the reply composed for the client.  Every alias entry hands
+   in its answer records; the entry the chain ends at hands in answer records (data) or ONLY authority records and the
+   rcode (a denial: searchAdditionalAnswer merges res.Ns, the NXDOMAIN branch copies the rcode).  The AD bit is the AND
+   over EVERY entry visited — the one that contributed nothing but the denial included — then the client's flags. *)
+Record creply := mk_creply { cr_rcode : N; cr_ad : bool; cr_answer : list N; cr_auth : list N }.
+Definition term_of (st : cstore) (n : N) : cterm :=
+  match cs_find st n with Some e => ce_term e | None => TData end.
+Definition chase_reply (q : creq) (st : cstore) (fuel : nat) (qn : N) : option creply :=
+  let '(path, complete) := walk st fuel qn [] in
+  if complete then
+    let l := last path 0 in
+    Some (mk_creply (match term_of st l with TNxDomain => 3 | _ => 0 end)
+                    (served_ad q st path)
+                    (match term_of st l with TData => path | _ => removelast path end)
+                    (match term_of st l with TData => [] | _ => [l] end))
+  else None.
 (* the entry of the question's own name aliases onto that very name *)
 Definition self_alias (st : cstore) (qn : N) : bool :=
   match cs_find st qn with Some e => match ce_next e with Some t => t =? qn | None => false end | None => false end.
